@@ -193,10 +193,17 @@ class Session:
     if op.get('_deny_iter'):
       kw['denylist'] = iter(list(op['deny']))
     name = op.get('_name_arg')
+    direct = bool(op.get('_direct')) and name is None   # `gin.register(fn, denylist=[...])`: the callable comes first
     if api == 'configurable':
-      returned = gin.configurable(name, **kw)(obj) if (name is not None or kw) else gin.configurable(obj)
+      if direct:
+        returned = gin.configurable(obj, **kw)
+      else:
+        returned = gin.configurable(name, **kw)(obj) if (name is not None or kw) else gin.configurable(obj)
     elif api == 'register':
-      returned = gin.register(name, **kw)(obj) if (name is not None or kw) else gin.register(obj)
+      if direct:
+        returned = gin.register(obj, **kw)
+      else:
+        returned = gin.register(name, **kw)(obj) if (name is not None or kw) else gin.register(obj)
     elif api == 'external':
       returned = gin.external_configurable(obj, name=name, **kw)
     else:
@@ -478,18 +485,21 @@ class Session:
     g = {'__name__': op['_pymodule'], 'gin': gin, '_rec': self._rec}
     msrc = ''
     for m in op['_method_ops']:
-      params = ', '.join(['self'] + [n if d is None else f'{n}=_d_{m["name"]}_{n}' for n, d in m['sig']['pos'][1:]])
-      for n, d in m['sig']['pos'][1:]:
+      own = m['sig']['pos'] if m.get('_static') else m['sig']['pos'][1:]
+      params = ', '.join(([] if m.get('_static') else ['self']) +
+                         [n if d is None else f'{n}=_d_{m["name"]}_{n}' for n, d in own])
+      for n, d in own:
         if d is not None:
           g[f'_d_{m["name"]}_{n}'] = decode(d['v'], gin)
-      names = [n for n, _ in m['sig']['pos'][1:]]
+      names = [n for n, _ in own]
       rec = '_rec(%d, %r, [%s], (), {})' % (m['obj'], m['_selector'], ', '.join(f'({n!r}, {n})' for n in names))
       lists = ''
       if m.get('allow'):
         lists = f'(allowlist={list(m["allow"])!r})'
       elif m.get('deny'):
         lists = f'(denylist={list(m["deny"])!r})'
-      msrc += f'  @gin.register{lists}\n  def {m["name"]}({params}):\n    return {rec}\n'
+      static = '  @staticmethod\n' if m.get('_static') else ''
+      msrc += f'{static}  @gin.register{lists}\n  def {m["name"]}({params}):\n    return {rec}\n'
     if op.get('_inherited'):
       # the registered method lives in an unregistered base class (mixin)
       src = (f'class {leaf}Base:\n  """base"""\n{msrc}\n'
